@@ -312,6 +312,9 @@ func emitReplay(prop string, seed uint64, v engine.ViolRec, minimise bool) (stri
 	rf := engine.ReplayFile{Tool: toolVersion, Property: prop, Profile: v.Profile, VerifSeed: seed, RunIndex: v.RunIndex,
 		Config: v.Config, Actions: acts, Violation: viol, Digest: digest, OrigLen: orig, Note: note}
 	dir := filepath.Join(verifDir(), "replays")
+	if d := os.Getenv("VERIF_EVIDENCE_DIR"); d != "" {
+		dir = filepath.Join(d, "replays")
+	}
 	if err := os.MkdirAll(dir, 0o755); err != nil {
 		return "", err
 	}
